@@ -172,7 +172,23 @@ def nf(ev, t, depth=0):
                 return [("z", _len_term(t.a[1][1]))]
             return [("?", strip_sites(t))]
         if n == "Iterator::chain" and len(t.a[1]) == 2:
-            return nf(ev, t.a[1][0], depth + 1) + nf(ev, t.a[1][1], depth + 1)
+            left = nf(ev, t.a[1][0], depth + 1)
+            right = nf(ev, t.a[1][1], depth + 1)
+            # `.. .chain(repeat(0).take(N.saturating_sub(len so far)))`: zero padding up to N bytes
+            if len(right) == 1 and right[0][0] == "zsat":
+                tot = _total_len(left)
+                if tot is not None and _lin_eq(tot, right[0][2]):
+                    right = [("pad", right[0][1], 0)]
+                else:
+                    right = [("?", right[0][3])]
+            return left + right
+        if n == "Iterator::take" and len(t.a[1]) == 2:
+            src = peel(t.a[1][0])
+            if src.op == "call" and cname(src) in ("core::repeat", "iter::repeat", "std::iter::repeat", "core::iter::repeat") and _const_int(src.a[1][0]) == 0:
+                cnt = peel(t.a[1][1])
+                if cnt.op == "call" and cname(cnt) == "num::<impl usize>::saturating_sub" and _const_int(cnt.a[1][0]) is not None:
+                    return [("zsat", _const_int(cnt.a[1][0]), int_form(cnt.a[1][1]), strip_sites(t))]
+                return [("z", int_form(cnt))]
         if n in ("slice::<impl [T]>::concat", "slice::<impl [[T]]>::concat") and len(t.a[1]) == 1:
             inner = peel(t.a[1][0])
             if inner.op == "agg" and inner.a[0][0] == "array":
@@ -598,7 +614,7 @@ def clobbers(segs):
 
 def is_strong(segs):
     for s in segs:
-        if s[0] in ("?", "phi", "copy", "resize?", "clobber"):
+        if s[0] in ("?", "phi", "copy", "resize?", "clobber", "zsat"):
             return False
         if s[0] == "rev" and not is_strong(list(s[1])):
             return False
